@@ -770,6 +770,109 @@ def rule_erasure_arity(ctx):
     ctx.floor(rule, "type patterns in ProductArity", n, 2)
 
 
+def rule_generativity(ctx):
+    """type variables and seals introduced by a judgment must be fresh for that use of the judgment"""
+    rule = "generativity"
+    facts = ctx.facts
+    ctx.rule(rule, "(a) introducing a `forall` (term judgment of `fn`, copattern clauses) checks the body under a FRESH abstract type, "
+                   "not under the witness id stored in the expected type's binder: two introductions of one binder in nested scopes "
+                   "(or two copies of a forall from unfolding a type function) would share one type variable; (b) a package-dependent "
+                   "introduction does not reuse one canonical skolem per signature for nested introductions; (c) substitution reaches "
+                   "inference variables (a `Fill` is not returned unchanged); (d) the support collector (escape check) opens sealed "
+                   "abstract types, whose definitions can mention the witnesses in scope")
+    # (a) abstract types allocated from the witness of an EXISTING binder
+    n = 0
+    for fn, bd in sorted(facts.bodies().items()):
+        if not bd["loc"][0].startswith("lang/statics/src/check") or "{closure" in fn:
+            continue
+        h = facts.hir(fn)
+        if not h:
+            continue
+        for c in H.walk(h["body"]):
+            if H.kind(c) in ("Call", "MethodCall") and re.search(r"AbstId as zydeco_statics::alloc::Alloc<.*TypeId>>::alloc$", H.callee(c) or ""):
+                args = H.call_args(c)
+                if len(args) < 2:
+                    continue
+                n += 1
+                x = H.peel(args[1])
+                reused = H.kind(x) == "Field" and x.get("name") == "witness" and "TypeBinder" in ((x.get("e") or x.get("base") or {}).get("ty") or "")
+                owner = "copattern" if "copattern" in fn else ("term-judgment" if "TermId>" in fn else M.short_fn(fn))
+                if reused:
+                    ctx.violation(rule, "forall-intro:%s:binder-witness-reused" % owner,
+                                  "%s checks the body of a type abstraction under the witness id of the expected type's own binder "
+                                  "(Alloc::alloc(tycker, source_binder.witness, ..)) instead of a fresh abstract type: with `let Id = forall X . X "
+                                  "-> Ret X`, inside `outer : Id = fn X x => ..` an `inner : Thk Id = { fn Y y => ret x }` is accepted (x : X "
+                                  "returned as Y), and `zydeco run` hands a string to an integer operation" % fn, [bd["loc"][0], c.get("ln")])
+                else:
+                    ctx.ok(rule, "abstract-type@%s:%s" % (M.short_fn(fn), c.get("ln")))
+    ctx.floor(rule, "abstract types allocated from a witness id", n, 10)
+    # (b) canonical skolems of a PackPi signature
+    fn = "zydeco_statics::check::PackPiWitnessSkolems::<'a>::collect_k"
+    h = facts.hir(fn)
+    if h is None:
+        ctx.anchor_lost(rule, fn + " not found")
+    else:
+        env = A.ArmEnv()
+        env.strip = True
+        env.bind_params(h)
+        env.absorb(h["body"])
+        canonical = [c for c in H.walk(h["body"]) if H.kind(c) in ("Call", "MethodCall")
+                     and re.search(r"AbstId as zydeco_statics::alloc::Alloc<.*TypeId>>::alloc$", H.callee(c) or "")]
+        fresh = [c for c in H.walk(h["body"]) if H.kind(c) in ("Call", "MethodCall")
+                 and re.search(r"Alloc<.*AbstId>>::alloc$", H.callee(c) or "")]
+        if canonical and not fresh:
+            ctx.violation(rule, "packpi-intro:canonical-skolems", "PackPiWitnessSkolems::collect_k opens the package of a package-dependent "
+                          "introduction with the signature's own canonical witness ids (no fresh AbstId is allocated): two nested "
+                          "introductions against the same `pi` type open the SAME skolem, so `inner : Thk Unbox = { fn ((Y, y) : Box) => "
+                          "ret x }` inside `outer : Thk Unbox` is accepted and returns the outer package's payload at the inner type",
+                          facts.bodies()[fn]["loc"])
+        else:
+            ctx.ok(rule, "packpi-intro:fresh-skolems")
+    # (c) substitution and inference variables
+    for f in ("subst_absts", "subst_env"):
+        fn = "zydeco_statics::normalize::<impl zydeco_statics::syntax::TypeId>::" + f
+        h = facts.hir(fn)
+        if h is None:
+            ctx.anchor_lost(rule, fn + " not found")
+            continue
+        hit = None
+        for m in H.walk(h["body"]):
+            if H.kind(m) != "Match" or m.get("src"):
+                continue
+            for a in m["arms"]:
+                if A.pat_shape(a["pat"]).startswith("Fill") and H.kind(H.peel(a["body"])) in ("Path", "Unary") and \
+                        A.sexpr(a["body"], None) in ("$self", "(Deref $self)", "$P0"):
+                    hit = a
+        if hit is not None:
+            ctx.violation(rule, "%s:Fill:returned-unchanged" % f, "TypeId::%s returns an inference variable unchanged (`Fillable::Fill(_) => "
+                          "*self`): a `(_ : VType)` under a `forall X` that is solved to a type mentioning X keeps saying X after the forall is "
+                          "instantiated, so a recursive call at another instance is accepted with the caller's X" % f,
+                          [facts.bodies()[fn]["loc"][0], hit["ln"]])
+        else:
+            ctx.ok(rule, "%s:Fill" % f)
+    # (d) the support collector and sealed abstract types
+    fn = "zydeco_statics::normalize::TypeSupportCollector::visit"
+    h = facts.hir(fn)
+    if h is None:
+        ctx.anchor_lost(rule, fn + " not found")
+    else:
+        for m in H.walk(h["body"]):
+            if H.kind(m) != "Match" or m.get("src"):
+                continue
+            for a in m["arms"]:
+                if not A.pat_shape(a["pat"]).startswith("Abst("):
+                    continue
+                opens = any(H.kind(x) == "Field" and x.get("name") == "seals" for x in H.walk(a["body"]))
+                if not opens:
+                    ctx.violation(rule, "support:Abst:seal-not-opened", "TypeSupportCollector::visit records an abstract type only when it is an "
+                                  "existential skolem and never looks into the definition a SEALED abstract type stands for: a local `def W "
+                                  "= data | +W : X end in` under an opened package (or under `fn X`) mentions the witness X, escapes with the "
+                                  "result type unnoticed, and two calls at different X return interchangeable `W`s",
+                                  [facts.bodies()[fn]["loc"][0], a["ln"]])
+                else:
+                    ctx.ok(rule, "support:Abst")
+
+
 def rule_judgments(ctx):
     """every sub-term / sub-pattern of every former is handed to a checking judgment (R-TRAV on the checker itself)"""
     from .. import trav
@@ -867,6 +970,7 @@ def run(ctx):
     rule_declaration_lookup(ctx)
     rule_stuck_states(ctx)
     rule_erasure_arity(ctx)
+    rule_generativity(ctx)
     from . import c03 as _c03
     _c03.rule_opened_skolems(ctx)
     from . import c04
